@@ -27,3 +27,9 @@ func c14ExtraFrom(lm handshakeMessage) c14Msg {
 	}
 	return c14Msg{}
 }
+
+// c04SendEmpty sends an empty datagram (WriteTo with a zero-length payload).
+func c04SendEmpty(c *Conn) error {
+	_, err := c.WriteTo(nil, c.RemoteAddr())
+	return err
+}
